@@ -202,6 +202,27 @@ def make_fixed_point(kind, n, pre_s, post_s, lead=''):
     return k_fixed_point, pre
 
 
+def make_entry_fixed_point(tag, kind, n, lead):
+    """whatever <tag>.from_list accepts is written by to_list in a form it accepts again"""
+    def k_entry_fixed_point(h: str):
+        fields = [tag, 'a\\' + kind + lead + h + 'b'] + ([] if tag == 'IGNORE' else ['0'])
+        cls = gm.MANIFEST_TAG_MAPPING[tag]
+        with IntModel():
+            try:
+                e = cls.from_list(list(fields))
+            except ManifestSyntaxError:
+                return True, False
+            try:
+                e2 = cls.from_list(list(e.to_list()))
+            except ManifestSyntaxError:
+                return False, True
+        return e2 == e and e2.path == e.path, True
+
+    def pre(h: str):
+        return len(h) == n - len(lead)
+    return k_entry_fixed_point, pre
+
+
 # (f) transparent (de)compression: layers chosen by suffix, text layer iff text mode, every
 # layer closed on exit and on error
 import gemato.compression as g_comp  # noqa: E402
@@ -390,6 +411,18 @@ def conditions(tier):
                     bounds=f'last entry {FTAGS[t1]} with path "a"+<any code point>, '
                            f'{len(FCKS[ck])} checksums; first entry concrete; '
                            f'sort={sort}'))
+    for tag in ('DIST', 'DATA', 'AUX'):
+        for kind, n in ESC:
+            lead = {'x': '', 'u': '00', 'U': '000000'}[kind] if not full else \
+                {'x': '', 'u': '', 'U': '0000'}[kind]
+            fn, pre = make_entry_fixed_point(tag, kind, n, lead)
+            cs.append(Cond(
+                f'entry_fixed_point_{tag}_{kind}', fn, pre, timeout=900, group='fixedpoint',
+                twin=(tag == 'DATA'),
+                descr=f'if {tag}.from_list accepts a name with an escape "\\{kind}..." in the '
+                      'middle, to_list of the result is accepted again with an equal entry '
+                      '(tag-specific name rules are applied to the decoded name)',
+                bounds=f'{n - len(lead)} free characters after {lead!r}'))
     for kind, n in ESC:
         for pi, (a, b) in enumerate(POS):
             lead = ('0000' if not full else '00') if kind == 'U' else ''
@@ -415,7 +448,7 @@ def validate(seed, tier):
         k = rnd.choice((2, 4, 8))
         s = ''.join(rnd.choice('0123456789abcdefABCDEF') for _ in range(k))
         if model_int(s, 16) != int(s, 16):
-            errs.append(f'model_int({s!r}) != int')
+            raise RuntimeError(f'translator validation: model_int({s!r}) != int')
         n += 1
     # the real codecs: entries written through every supported compression come back equal
     import os
@@ -444,6 +477,9 @@ def validate(seed, tier):
     return n, [{'sample': 'model_int("fF0a",16)', 'value': model_int('fF0a', 16)},
                {'codecs': ['plain', 'gz', 'bz2', 'lzma', 'xz']}], errs
 
+
+# validate() compares the real implementation with the property itself
+VALIDATION_CHECKS_PROPERTY = True
 
 ASSUMPTIONS = ['Python\'s own str(int)/int(str) and strftime/strptime round-trip (C code)',
                'int(s, 16) replaced inside gemato.manifest by an exact digit-arithmetic model '
